@@ -1,29 +1,121 @@
 (* C10 model driver.  L cases (see harness/c10.cc run_load) are modelled; T cases (two real lifetimes,
    real mtimes) are judged by the oracle only and answered with a fixed token. *)
+let opened_state np nf = opened (nat_of_int np) (nat_of_int nf)
 let bools_str l = String.concat "" (List.map (fun b -> if b then "1" else "0") l)
 
 let split_on c s = String.split_on_char c s
 
+(* ---- T cases: a session history, a save, a crash, perturbations, load + check — all on the model.
+   Real mtimes are symbolic: every file has mtime 500 at the save; W makes it 507. Time in minutes. *)
+let run_t line =
+  match split_on '|' line with
+  | [lay; miss; ops; pert] ->
+    (match split_ws lay with
+     | "T" :: pls :: lens ->
+       let pl = int_of_string pls in
+       let lens = List.map int_of_string lens in
+       let total = List.fold_left (+) 0 lens in
+       let np = (total + pl - 1) / pl in
+       let ilist s = if s = "-" || s = "" then [] else List.map int_of_string (split_on ',' s) in
+       let missing = ilist (String.trim miss) in
+       let pt = split_ws pert in
+       let lose = List.concat_map (fun t -> if String.length t > 5 && String.sub t 0 5 = "lose=" then ilist (String.sub t 5 (String.length t - 5)) else []) pt in
+       let pt = List.filter (fun t -> not (String.length t >= 5 && String.sub t 0 5 = "lose=")) pt in
+       let disk = Array.init np (fun i -> not (List.mem i missing)) in       (* piece valid on disk *)
+       let bits = ref (Some (Array.to_list disk)) in
+       let active = ref false and opened = ref true and checked = ref true in
+       let completed = ref [] and now = ref 0 in
+       let saved = ref None in
+       let all_set () = match !bits with Some b -> List.for_all (fun x -> x) b | None -> false in
+       List.iter (fun o ->
+           if o = "start" then (if !opened && !checked then active := true)
+           else if o = "stop" then active := false
+           else if o = "dl" then begin
+             if !active then (match !bits with
+                 | Some b ->
+                   List.iteri (fun i v -> if not v then begin
+                       completed := hash_succeeded !completed (z_of_int !now) (nat_of_int i);
+                       disk.(i) <- true end) b;
+                   bits := Some (List.map (fun _ -> true) b)
+                 | None -> ())
+           end
+           else if String.length o > 3 && String.sub o 0 3 = "adv" then now := !now + int_of_string (String.sub o 3 (String.length o - 3))
+           else if o = "close" then (active := false; opened := false; checked := false; bits := None)
+           else if o = "reopen" then (if not !opened then (opened := true; checked := true; bits := Some (Array.to_list disk)))
+           else if o = "save" then begin
+             if !opened && !checked then
+               let kinds = List.map (fun _ -> saved_mtime (Some (n_of_int 0, z_of_int 500)) true (all_set ()) !active) lens in
+               let unc = List.sort_uniq compare (List.map int_of_nat (uncertain_saved !completed (z_of_int !now))) in
+               saved := Some (kinds, (match !bits with Some b -> b | None -> []), unc)
+           end) (split_ws ops);
+       (* lifetime 2 *)
+       let offs = ref 0 in
+       let finfo = List.mapi (fun k l ->
+           let o = !offs in offs := o + l;
+           let first = o / pl in
+           let last = if l = 0 then first else (o + l + pl - 1) / pl in
+           let p = List.nth pt k in
+           let st = if p = "D" then None
+             else if p.[0] = 'T' then Some (n_of_int (int_of_string (String.sub p 1 (String.length p - 1))), z_of_int 500)
+             else if p = "W" then Some (n_of_int l, z_of_int 507) else Some (n_of_int l, z_of_int 500) in
+           ({ fi_first = nat_of_int first; fi_last = nat_of_int last; fi_pad = false; fi_size = n_of_int l; fi_stat = st }, (o, l, p))) lens in
+       let valid = List.init np (fun i ->
+           let a = i * pl and b = min ((i + 1) * pl) total in
+           disk.(i) && not (List.mem i lose) &&
+           List.for_all (fun (_, (o, l, p)) ->
+               let lo = max a o and hi = min b (o + l) in
+               lo >= hi || (p = "=" ) || (p.[0] = 'T' && hi - o <= int_of_string (String.sub p 1 (String.length p - 1)))) finfo) in
+       let kind_char z = let v = int_of_z z in if v = -1 then "0" else if v = -2 then "1" else if v = -3 then "2" else if v = -4 then "A" else "R" in
+       let s0 = opened_state np (List.length lens) in
+       (match !saved with
+        | None ->
+          let r = { r_map = true; r_files = None; r_bits = BMissing; r_unc = None; r_unc_ts = None } in
+          let (s, _) = load (nat_of_int np) (z_of_int 10) (List.map fst finfo) s0 r in
+          Printf.sprintf "saved=- sbf=- unc=none load_ranges=%s bits=%s" (bools_str s.l_ranges) (bools_str (check s valid))
+        | Some (kinds, b, unc) ->
+          let allset = List.for_all (fun x -> x) b and allunset = List.for_all (fun x -> not x) b in
+          let nset = List.length (List.filter (fun x -> x) b) in
+          let bytes = List.init ((np + 7) / 8) (fun j ->
+              let v = ref 0 in
+              for q = 0 to 7 do
+                let i = j * 8 + q in
+                if i < np && List.nth b i then v := !v lor (0x80 lsr q)
+              done; !v) in
+          let sbf = if allset || allunset then Printf.sprintf "V%d" nset
+            else "S" ^ String.concat "" (List.map (Printf.sprintf "%02x") bytes) in
+          let rb = if allset || allunset then BVal (z_of_int nset) else BStr (List.map n_of_int bytes) in
+          let uncb = List.concat_map (fun i -> List.map n_of_int [(i lsr 24) land 255; (i lsr 16) land 255; (i lsr 8) land 255; i land 255]) unc in
+          let r = { r_map = true; r_files = Some (List.map (fun z -> FMap (MVal z)) kinds); r_bits = rb;
+                    r_unc = (if unc = [] then None else Some uncb); r_unc_ts = (if unc = [] then None else Some (z_of_int 0)) } in
+          let (s, _) = load (nat_of_int np) (z_of_int 10) (List.map fst finfo) s0 r in
+          Printf.sprintf "saved=%s sbf=%s unc=%s load_ranges=%s bits=%s"
+            (String.concat "" (List.map kind_char kinds)) sbf
+            (if unc = [] then "none" else String.concat "," (List.map string_of_int unc))
+            (bools_str s.l_ranges) (bools_str (check s valid)))
+     | _ -> "BADCASE")
+  | _ -> "BADCASE"
+
 let () = each_line (fun line ->
-  if String.length line >= 2 && String.sub line 0 2 = "T " then "T-ORACLE-ONLY" else
+  if String.length line >= 2 && String.sub line 0 2 = "T " then run_t line else
   match split_on '|' line with
   | [head; fls; rs; bads] ->
     (match split_ws head with
      | ["L"; pls; lds] ->
        let pl = int_of_string pls and load_date = int_of_string lds in
        let files = List.map (fun t -> match split_on ',' t with
-           | [l; sz; mt] -> (int_of_string l, int_of_string sz, int_of_string mt) | _ -> failwith "file") (split_ws fls) in
-       let total = List.fold_left (fun a (l, _, _) -> a + l) 0 files in
+           | [l; sz; mt] -> (int_of_string l, int_of_string sz, int_of_string mt, false)
+           | [l; sz; mt; "p"] -> (int_of_string l, -1, int_of_string mt, true) | _ -> failwith "file") (split_ws fls) in
+       let total = List.fold_left (fun a (l, _, _, _) -> a + l) 0 files in
        let np = (total + pl - 1) / pl in
        let bad = List.filter_map (fun t -> if t = "-" then None else Some (int_of_string t)) (split_ws bads) in
        let off = ref 0 in
-       let fis = List.map (fun (l, sz, mt) ->
+       let fis = List.map (fun (l, sz, mt, pad) ->
            let o = !off in
            off := o + l;
            let first = o / pl in
            let last = if l = 0 then first else (o + l + pl - 1) / pl in
-           ({ fi_first = nat_of_int first; fi_last = nat_of_int last; fi_pad = false; fi_size = n_of_int l;
-              fi_stat = (if sz < 0 then None else Some (n_of_int sz, z_of_int mt)) }, (o, l, sz))) files in
+           ({ fi_first = nat_of_int first; fi_last = nat_of_int last; fi_pad = pad; fi_size = n_of_int l;
+              fi_stat = (if sz < 0 then None else Some (n_of_int sz, z_of_int mt)) }, (o, l, (if pad then l else sz)))) files in
        let valid = List.init np (fun i ->
            let a = i * pl and b = min ((i + 1) * pl) total in
            (not (List.mem i bad)) &&
